@@ -172,10 +172,12 @@ class Normal(BaseProposal):
 
     @property
     def state(self):
-        return {'random_state': self.random_state}
+        return {'random_state': self.random_state,
+                'nsteps': self._nsteps}
 
     def set_state(self, state):
         self.random_state = state['random_state']
+        self._nsteps = state['nsteps']
 
     def _jump(self, fromx):
         # the normal RVS is much faster than the multivariate one, so use it
